@@ -6,6 +6,8 @@ package dprod
 // are validated by TLC against spec/ProdTrace.tla.
 
 import (
+	"sync/atomic"
+	"strconv"
 	"context"
 	"encoding/json"
 	"errors"
@@ -50,12 +52,32 @@ type Scenario struct {
 	SlowPartMs int    `json:"slowPartMs"`
 	CloseEarly bool   `json:"closeEarly"`
 	BadParts   bool   `json:"badParts"` // some produce steps carry BadPart (a custom partitioner is installed)
+	// Leaderless: records go to partitions by id parity; the "leaderless" fault makes partition 1 of t report LEADER_NOT_AVAILABLE in
+	// metadata while brokers reject produce requests for it without naming a leader
+	Leaderless bool `json:"leaderless,omitempty"`
 	Steps      []Step `json:"steps"`
 }
 
 func gen(seed int64, tier string) Scenario {
 	r := rand.New(rand.NewSource(seed))
 	sc := Scenario{Seed: seed, MaxRecs: 1 + r.Intn(3), LingerMs: []int{0, 0, 5}[r.Intn(3)]}
+	if r.Intn(6) == 0 {
+		// records sit on a partition that lost its leader; then the topic is purged (or not), and everything must still be
+		// accounted for: every promise runs, hooks pair up, Flush returns
+		sc.Leaderless = true
+		sc.MaxRecs = 8
+		sc.Steps = append(sc.Steps, Step{Op: "produce", ID: 1, Mode: "produce", Topic: "t"}, Step{Op: "produce", ID: 2, Mode: "produce", Topic: "t"}, Step{Op: "flush"},
+			Step{Op: "fault", Fault: "leaderless"}, Step{Op: "sleep", Ms: 40})
+		for id := 3; id <= 6; id++ {
+			sc.Steps = append(sc.Steps, Step{Op: "produce", ID: id, Mode: "produce", Topic: "t"})
+		}
+		sc.Steps = append(sc.Steps, Step{Op: "sleep", Ms: []int{30, 120, 400}[r.Intn(3)]})
+		if r.Intn(3) != 0 {
+			sc.Steps = append(sc.Steps, Step{Op: "purge", Topic: "t"})
+		}
+		sc.Steps = append(sc.Steps, Step{Op: "sleep", Ms: 200})
+		return sc
+	}
 	if r.Intn(8) == 0 {
 		sc.Manual = true
 	}
@@ -206,7 +228,7 @@ func runScenario(t *testing.T, rec *sim.Recorder, sc Scenario) {
 		if sc.Manual {
 			opts = append(opts, kgo.ManualFlushing())
 		}
-		if sc.SlowPartMs > 0 || sc.BadParts {
+		if sc.SlowPartMs > 0 || sc.BadParts || sc.Leaderless {
 			d := time.Duration(sc.SlowPartMs) * time.Millisecond
 			opts = append(opts, kgo.RecordPartitioner(kgo.BasicConsistentPartitioner(func(string) func(*kgo.Record, int) int {
 				return func(r *kgo.Record, n int) int {
@@ -221,6 +243,64 @@ func runScenario(t *testing.T, rec *sim.Recorder, sc Scenario) {
 		cl, err := kgo.NewClient(opts...)
 		if err != nil {
 			t.Fatal(err)
+		}
+		var leaderless atomic.Bool
+		if sc.Leaderless {
+			tid := c.TopicInfo("t").TopicID
+			c.ControlKey(int16(kmsg.Metadata), func(kreq kmsg.Request) (kmsg.Response, error, bool) {
+				c.KeepControl()
+				req := kreq.(*kmsg.MetadataRequest)
+				if !leaderless.Load() || len(req.Topics) != 1 {
+					return nil, nil, false
+				}
+				resp := req.ResponseKind().(*kmsg.MetadataResponse)
+				for i, a := range c.ListenAddrs() {
+					host, ps, _ := net.SplitHostPort(a)
+					port, _ := strconv.Atoi(ps)
+					sb := kmsg.NewMetadataResponseBroker()
+					sb.NodeID, sb.Host, sb.Port = int32(i), host, int32(port)
+					resp.Brokers = append(resp.Brokers, sb)
+				}
+				st := kmsg.NewMetadataResponseTopic()
+				st.Topic, st.TopicID = kmsg.StringPtr("t"), tid
+				for p := int32(0); p < 2; p++ {
+					sp := kmsg.NewMetadataResponseTopicPartition()
+					sp.Partition, sp.Leader, sp.LeaderEpoch = p, c.LeaderFor("t", p), 0
+					sp.Replicas, sp.ISR = []int32{sp.Leader}, []int32{sp.Leader}
+					if p == 1 {
+						sp.ErrorCode, sp.Leader = kerr.LeaderNotAvailable.Code, -1
+					}
+					st.Partitions = append(st.Partitions, sp)
+				}
+				resp.Topics = append(resp.Topics, st)
+				return resp, nil, true
+			})
+			c.ControlKey(int16(kmsg.Produce), func(kreq kmsg.Request) (kmsg.Response, error, bool) {
+				c.KeepControl()
+				req := kreq.(*kmsg.ProduceRequest)
+				hasP1 := false
+				for _, rt := range req.Topics {
+					for _, rp := range rt.Partitions {
+						hasP1 = hasP1 || rp.Partition == 1
+					}
+				}
+				if !leaderless.Load() || !hasP1 {
+					return nil, nil, false
+				}
+				resp := req.ResponseKind().(*kmsg.ProduceResponse)
+				for _, rt := range req.Topics {
+					st := kmsg.NewProduceResponseTopic()
+					st.Topic, st.TopicID = rt.Topic, rt.TopicID
+					for _, rp := range rt.Partitions {
+						sp := kmsg.NewProduceResponseTopicPartition()
+						sp.Partition, sp.ErrorCode, sp.BaseOffset = rp.Partition, kerr.NotLeaderForPartition.Code, -1
+						sp.CurrentLeader.LeaderID, sp.CurrentLeader.LeaderEpoch = -1, -1
+						st.Partitions = append(st.Partitions, sp)
+					}
+					resp.Topics = append(resp.Topics, st)
+				}
+				return resp, nil, true
+			})
 		}
 		var wg sync.WaitGroup
 		var mu sync.Mutex
@@ -360,6 +440,8 @@ func runScenario(t *testing.T, rec *sim.Recorder, sc Scenario) {
 					refuseMu.Unlock()
 				case "stall":
 					chaos.StallNext(int16(kmsg.Produce), n, time.Duration(st.Ms)*time.Millisecond)
+				case "leaderless":
+					leaderless.Store(true)
 				case "stalldropmove":
 					// the next produce request is handled, its answer held back and then lost; meanwhile the partitions move
 					// to the other broker and the client learns about it
@@ -388,11 +470,13 @@ func runScenario(t *testing.T, rec *sim.Recorder, sc Scenario) {
 			// no more faults, brokers healthy: everything accepted must now complete (retry limits, record timeouts and
 			// unknown-topic limits all lie far below this bound)
 			chaos.Disarm()
+			leaderless.Store(false) // the partition has a leader again
 			fctx, fcancel := context.WithTimeout(context.Background(), 3*time.Minute)
 			ferr := cl.Flush(fctx)
 			fcancel()
 			rec.Ev("final_flush", "err", errS(ferr), "buffered", cl.BufferedProduceRecords())
 		}
+		leaderless.Store(false)
 		rec.Ev("close_call")
 		closed := make(chan struct{})
 		go func() { cl.Close(); close(closed) }()
